@@ -35,6 +35,22 @@ def main(argv):
                 print(pp.body(b, show_cleanup="--cleanup" in argv))
                 print()
         return 0
+    if cmd == "paths":
+        from . import accept
+        prog = facts.load()
+        tabs, an, sy = accept.accept_tables(prog, argv[1], sites="some" if "--some" in argv else "ok")
+        for tb in tabs:
+            print("== accept site bb%d: %d raw path(s), %d after simplification/merging" % (tb.site, tb.raw_count, len(tb.paths)))
+            common = tb.common()
+            for a in sorted(common):
+                print("   ALL: %s" % a)
+            for i, ats in enumerate(sorted(tb.paths, key=sorted)):
+                print("   case %d: %s" % (i, " ; ".join(sorted(ats - common))))
+        for (tail, head) in an.body.back_edges():
+            print("== loop header bb%d" % head)
+            for i, ats in enumerate(accept.loop_tables(prog, an, sy, head)):
+                print("   iter-path %d: %s" % (i, " ; ".join(sorted(ats))))
+        return 0
     if cmd == "list":
         prog = facts.load()
         pat = argv[1] if len(argv) > 1 else ""
